@@ -151,7 +151,8 @@ contract("C04", "finite_diff", native=False, replay_with="limits_native")(_finit
 
 # limits given at construction stay in force after a save / load round trip: the round-trip contracts of C09 carry the clauses
 # "bounds restored" and "the reflecting map / bounded integrator is selected again", checked under this property as well
-from contracts.c09_persistence import pca_roundtrip as _pr, hmc_roundtrip as _hr, ensemble_roundtrip as _er
+from contracts.c09_persistence import pca_roundtrip as _pr, hmc_roundtrip as _hr, ensemble_roundtrip as _er, gibbs_roundtrip as _gr
+contract("C04", "gibbs_roundtrip", native=False, replay_with="limits_native")(_gr)
 contract("C04", "pca_roundtrip", native=False, replay_with="limits_native")(_pr)
 contract("C04", "hmc_roundtrip", native=False, replay_with="limits_native")(_hr)
 contract("C04", "ensemble_roundtrip", native=False, replay_with="limits_native")(_er)
